@@ -26,8 +26,13 @@ PROPERTY = "C13"
 RULE = ("formulas from (a) parsing a rendered derivation tree whose counts span 1e-9..1e13 incl. >6-digit and "
         "boundary spellings (999999.5, 0.0000999999, 1.0000001), on the public and on a private table, (b) "
         "arithmetic histories (constructors from str/atom/dict/nested sequence/Formula, +, n*, += with n in "
-        "[1e-9, 1e12], counts kept in [1e-20, 1e20]), (c) mix_by_weight / mix_by_volume calls and wt%/vol%/mass/"
-        "layer mixture strings with quantity ratios up to 1e9. Oracle: s=str(f) must parse; the parsed structure "
+        "[1e-9, 1e12], counts kept in [1e-20, 1e20]; constructors also on the private table, change_table), "
+        "(c) mix_by_weight / mix_by_volume calls (Formula and string components, table=T in a third of the cases) and wt%/vol%/mass/"
+        "layer mixture strings with quantity ratios up to 1e9, (d) long histories: 1-5 ionic sources (parsed on either "
+        "table, arithmetic, mixtures) are built and round-tripped, then formulas covering every element ion of the "
+        "table (499, exhaustive) plus drawn isotope ions are parsed/printed/parsed back in a drawn order, then the "
+        "first formulas are round-tripped again against the atom objects they hold, which must still be the "
+        "objects the table serves. Oracle: s=str(f) must parse; the parsed structure "
         "must equal (same nesting, atoms by identity, counts as equal doubles) the structure of f with each count "
         "rounded to 6 significant digits and groups of (rounded) count 1 dissolved; for (a) also the structure the "
         "grammar gives the tree; repr(f) == \"formula('\"+s+\"')\"; with a name, str is the name and repr shows it. "
@@ -40,6 +45,8 @@ ASSUMPTIONS = [
     "computes); the re-parsed count must be the double nearest to that decimal",
     "if building the source formula itself raises (a C01/C02/C11 matter) the case is counted as inconclusive, not judged here",
     "zero and negative counts are outside the property ('positive counts')",
+    "in a long history (d) a formula whose immediate round trip fails is left to sources (a)-(c), which generate "
+    "the same formulas; (d) judges the scan and the second round trip after it",
 ]
 
 _STATE = {}
@@ -48,13 +55,8 @@ CTX = decimal.Context(prec=1400, rounding=decimal.ROUND_HALF_EVEN)
 
 def env():
     if not _STATE:
-        E = ops.env()
-        from periodictable import core, mass, density
-        T = core.PeriodicTable("c13-private")
-        mass.init(T)
-        density.init(T)
+        E = ops.env()           # public table and the private table of pbt/fops_c02.py (own atoms, some masses changed)
         _STATE.update(E)
-        _STATE["tables"] = {"public": E["table"], "private": T}
     return _STATE
 
 
@@ -200,6 +202,12 @@ def roundtrip(ctx, f, case, which, source, exp_tree=None, nm=None):
     r = repr(f)
     if r != "formula('" + s + "')":
         raise Violation("c13:repr", "repr is %r, str is %r" % (r, s), case)
+    # the producer was asked for atoms of this table: parsing the printed form with this table must give them back
+    for a in all_atoms(f.structure):
+        if a is not key_to_atom(table, atom_key(a)):
+            raise Violation("c13:producer:atom-of-another-table",
+                            "%s made with the %s table holds %r, which is not that table's atom (printed %r)"
+                            % (source, which, a, s), case)
     try:
         g = formula(s, table=table)
     except Exception as e:  # noqa
@@ -240,8 +248,8 @@ def wide_count():
     digits = st.text("0123456789", min_size=0, max_size=7)
     nzd = st.sampled_from("123456789")
     big = st.tuples(nzd, st.text("0123456789", min_size=4, max_size=12)).map("".join)
-    tiny = st.tuples(st.sampled_from(["0.", "."]), st.integers(0, 8).map(lambda n: "0" * n), digits, nzd
-                     ).map("".join)
+    tiny = st.tuples(st.sampled_from(["0.", "."]), st.one_of(st.integers(0, 8), st.integers(9, 15)).map(lambda n: "0" * n),
+                     digits, nzd).map("".join)
     mixed = st.tuples(st.integers(1, 9999999).map(str), digits).map(lambda t: t[0] + "." + t[1])
     return st.one_of(st.none(), st.none(), fa.count_str(), fa.count_str(allow_none=False), big, tiny, mixed,
                      st.sampled_from(SPECIAL_COUNTS))
@@ -294,7 +302,10 @@ def check_tree(ctx, value):
 def mult():
     return st.one_of(ops.number(), ops.number(),
                      st.tuples(st.integers(1, 999999), st.integers(-14, 7)).map(lambda t: float("%de%d" % t)),
-                     st.sampled_from([1e6, 1e-5, 1e9, 1e12, 1e-9, 999999.5, 1000000, 10 ** 12, 0.5, 1.0000001]))
+                     # six full digits far below 1: printing them needs up to 25 decimals
+                     st.tuples(st.integers(100000, 999999), st.integers(-24, -12)).map(lambda t: float("%de%d" % t)),
+                     st.sampled_from([1e6, 1e-5, 1e9, 1e12, 1e-9, 999999.5, 1000000, 10 ** 12, 0.5, 1.0000001,
+                                      6.25e-14, 1.23457e-11]))
 
 
 def check_ops(ctx, value):
@@ -312,8 +323,9 @@ def check_ops(ctx, value):
                 # a formula just parsed from a rendered tree (possibly the same string as an earlier,
                 # since modified, variable) must print and parse back to what the tree says
                 E = env()
-                exp_tree = expected_from_tree(E["tables"]["public"], fa.tree_structure(E["pool"], step.op[1]["g"]))
-            roundtrip(ctx, vars_[i].f, dict(case, var=i, at_step=step.index, string=None), "public",
+                exp_tree = expected_from_tree(E["tables"][vars_[i].table],
+                                              fa.tree_structure(E["pool"], step.op[1]["g"]))
+            roundtrip(ctx, vars_[i].f, dict(case, var=i, at_step=step.index, string=None), vars_[i].table,
                       "arithmetic-early", exp_tree=exp_tree)
     try:
         vars_, flags, skipped = ops.interpret(history, observer=observer if early else None,
@@ -327,7 +339,7 @@ def check_ops(ctx, value):
     ctx.count("ops:printed-early" if early else "ops:printed-at-end")
     for i, v in enumerate(vars_):
         c = dict(case, var=i)
-        roundtrip(ctx, v.f, c, "public", "arithmetic", nm=nm if i == len(vars_) - 1 else None)
+        roundtrip(ctx, v.f, c, v.table, "arithmetic", nm=nm if i == len(vars_) - 1 else None)
 
 
 # ----------------------------------------------------------------------
@@ -339,17 +351,19 @@ def quantity():
                      st.sampled_from(["1", "0.001", "1000", "0.000001", "50", "2.5"]))
 
 
-def part(pool):
+def part(pool, atoms=None):
     """A component: a flat or once-nested compound with an explicit density."""
     dens = st.tuples(fa.count_str(allow_none=False, max_int=25), st.sampled_from(["", "n", "i"])).map(list)
-    return st.tuples(fa.groups(pool, 1, None, 2, 3), dens).map(lambda t: {"g": t[0][0], "s": t[0][1], "d": t[1]})
+    return st.tuples(fa.groups(pool, 1, atoms, 2, 3), dens).map(lambda t: {"g": t[0][0], "s": t[0][1], "d": t[1]})
 
 
-def mixture(pool):
-    how = st.sampled_from(["mix_by_weight", "mix_by_volume", "mix_by_weight:str", "wt%", "vol%", "mass", "layer"])
-    parts = st.lists(st.tuples(part(pool), quantity()).map(list), min_size=2, max_size=3)
+def mixture(pool, atoms=None):
+    how = st.sampled_from(["mix_by_weight", "mix_by_volume", "mix_by_weight:str", "mix_by_volume:str",
+                           "wt%", "vol%", "mass", "layer"])
+    parts = st.lists(st.tuples(part(pool, atoms), quantity()).map(list), min_size=2, max_size=3)
     units = st.lists(st.integers(0, 20), min_size=3, max_size=3)
-    return st.tuples(how, parts, units).map(lambda t: {"how": t[0], "parts": t[1], "u": t[2]})
+    which = st.sampled_from(["public", "public", "private"])
+    return st.tuples(how, parts, units, which).map(lambda t: {"how": t[0], "parts": t[1], "u": t[2], "table": t[3]})
 
 
 MASS_U = ["g", "mg", "ug", "kg", "ng", "mL", "uL", "nL"]
@@ -357,21 +371,27 @@ LEN_U = ["nm", "um", "mm", "cm"]
 
 
 def build_mixture(E, m):
+    """The mixture on the table m['table']: components parsed with table=T / the mix functions called with
+    table=T (string and Formula components) / the mixture string parsed with table=T."""
     pt = E["pt"]
     strings = [fa.render(t) for t, _ in m["parts"]]
     qs = [q for _, q in m["parts"]]
     how = m["how"]
+    which = m.get("table", "public")
+    kw = {} if which == "public" else {"table": E["tables"][which]}
+    formula = E["formula"]
     if how in ("mix_by_weight", "mix_by_volume"):
         args = []
         for s, q in zip(strings, qs):
-            args += [E["formula"](s), float(q)]
+            args += [formula(s, **kw), float(q)]
         fn = pt.mix_by_weight if how == "mix_by_weight" else pt.mix_by_volume
-        return fn(*args), None
-    if how == "mix_by_weight:str":
+        return fn(*args, **kw), None
+    if how in ("mix_by_weight:str", "mix_by_volume:str"):
         args = []
         for s, q in zip(strings, qs):
             args += [s, float(q)]
-        return pt.mix_by_weight(*args), None
+        fn = pt.mix_by_weight if how == "mix_by_weight:str" else pt.mix_by_volume
+        return fn(*args, **kw), None
     if how in ("wt%", "vol%"):
         # percentages of all but the last part; they must sum to less than 100
         pcs = [Decimal(q) for q in qs[:-1]]
@@ -382,13 +402,13 @@ def build_mixture(E, m):
         for p, c in zip(spell[1:], strings[1:-1]):
             s += " // %s%% %s" % (p, c)
         s += " // " + strings[-1]
-        return E["formula"](s), s
+        return formula(s, **kw), s
     if how == "mass":
         s = " // ".join("%s%s %s" % (q, MASS_U[u % len(MASS_U)], c) for q, u, c in zip(qs, m["u"], strings))
-        return E["formula"](s), s
+        return formula(s, **kw), s
     if how == "layer":
         s = " // ".join("%s %s %s" % (q, LEN_U[u % len(LEN_U)], c) for q, u, c in zip(qs, m["u"], strings))
-        return E["formula"](s), s
+        return formula(s, **kw), s
     raise ValueError(how)
 
 
@@ -406,7 +426,105 @@ def check_mixture(ctx, value):
     if not f.structure:
         ctx.count("skipped:empty-mixture")
         return
-    roundtrip(ctx, f, case, "public", "mixture:" + m["how"], nm=nm)
+    roundtrip(ctx, f, case, m.get("table", "public"), "mixture:" + m["how"], nm=nm)
+
+
+# ----------------------------------------------------------------------
+# (d) long histories: formulas built early are printed and parsed back again after several hundred
+# other ions have been used
+def ionic(pool):
+    return st.one_of(pool.ion(), pool.ion(), pool.isotope_ion(), pool.dt_ion())
+
+
+def long_case(pool):
+    tree = fa.compound(pool, depth=1, atoms=ionic(pool), max_groups=2, max_atoms=3, density=False)
+    item = st.one_of(
+        st.tuples(st.just("tree"), tree, st.sampled_from(["public", "private"])).map(list),
+        st.tuples(st.just("tree"), tree, st.just("public")).map(list),
+        st.tuples(st.just("ops"), ops.history(pool, max_steps=6, mult=mult(), tree=tree, tables=True)).map(list),
+        st.tuples(st.just("mixture"), mixture(pool, ionic(pool))).map(list))
+    scan = st.fixed_dictionaries({
+        "offset": st.integers(0, 2000), "reverse": st.booleans(), "per": st.integers(1, 4),
+        "iso": st.lists(st.integers(0, 10 ** 6), min_size=0, max_size=120),
+        "table": st.sampled_from(["public", "public", "private"]),
+        "count": st.sampled_from([None, "2", "0.5", "3"]),
+        # a short scan is there for the shrinker: a failure that does not need the long scan shrinks to it quickly
+        "limit": st.sampled_from([30, 5000, 5000, 5000, 5000])})
+    return st.tuples(st.lists(item, min_size=1, max_size=5), scan).map(
+        lambda t: {"kind": "long", "first": t[0], "scan": t[1]})
+
+
+def scan_specs(pool, scan):
+    """Every element ion of the table (exhaustive) plus drawn isotope ions, in the drawn order."""
+    specs = [[sym, 0, c] for sym in pool.with_ions for c in pool.info[sym][2]]
+    for i in scan["iso"]:
+        sym = pool.with_both[i % len(pool.with_both)]
+        isos, ions = pool.info[sym][1], pool.info[sym][2]
+        specs.append([sym, isos[(i // 7) % len(isos)], ions[(i // 3) % len(ions)]])
+    k = scan["offset"] % len(specs)
+    specs = specs[k:] + specs[:k]
+    if scan["reverse"]:
+        specs.reverse()
+    return specs[:scan.get("limit", 5000)]
+
+
+def held_atoms_are_table_atoms(f, table, which, when, case):
+    for a in f.atoms:
+        if a is not key_to_atom(table, atom_key(a)):
+            raise Violation("c13:long:held-atom-is-not-the-table-atom",
+                            "%s: atom %r held by %s is not the object the %s table serves for it"
+                            % (when, a, str(f)[:80], which), case)
+
+
+def check_long(ctx, case):
+    E = env()
+    pool, formula = E["pool"], E["formula"]
+    held = []
+    for item in case["first"]:
+        try:
+            if item[0] == "tree":
+                which = item[2]
+                held.append((formula(fa.render(item[1]), table=E["tables"][which]), which))
+            elif item[0] == "ops":
+                vars_, _, _ = ops.interpret(item[1], mag=(Fraction(1, 10 ** 20), Fraction(10 ** 20)))
+                held += [(v.f, v.table) for v in vars_]
+            else:
+                f, _ = build_mixture(E, item[1])
+                if f.structure:
+                    held.append((f, item[1].get("table", "public")))
+        except Exception:  # noqa
+            ctx.inconclusive += 1
+            ctx.count("inconclusive:source-rejected")
+    # The immediate round trip of the early formulas is a precondition here: the same sources are judged at
+    # scale by tasks (a)-(c); a formula that fails it is dropped from this history (a failing case would make
+    # every shrink step pay for the whole scan).
+    ok = []
+    for f, which in held:
+        try:
+            held_atoms_are_table_atoms(f, E["tables"][which], which, "right after building", case)
+            roundtrip(ctx, f, case, which, "long:first")
+            ok.append((f, which))
+        except Violation:
+            ctx.count("long:first-round-trip-failed(left to the other tasks)")
+    held = ok
+    # the scan: other ionic formulas are parsed, printed and parsed back
+    scan = case["scan"]
+    which = scan["table"]
+    table = E["tables"][which]
+    specs = scan_specs(pool, scan)
+    per = scan["per"]
+    seen = set()
+    for i in range(0, len(specs), per):
+        chunk = specs[i:i + per]
+        tree = {"g": [["i", None, [["a", sp, False, scan["count"]] for sp in chunk]]], "s": [], "d": None}
+        g = formula(fa.render(tree), table=table)
+        roundtrip(ctx, g, case, which, "long:scan")
+        seen.update(tuple(sp) for sp in chunk)
+    ctx.count("long:distinct-ions-scanned", len(seen))
+    # the formulas built first, again
+    for f, w in held:
+        roundtrip(ctx, f, case, w, "long:again")
+        held_atoms_are_table_atoms(f, E["tables"][w], w, "after the scan of %d ions" % len(seen), case)
 
 
 # ----------------------------------------------------------------------
@@ -422,7 +540,7 @@ def task_tree(ctx, n, depth):
 
 def task_ops(ctx, n, steps=12):
     E = env()
-    strat = st.tuples(ops.history(E["pool"], max_steps=steps, mult=mult()), nm_strategy(), st.booleans())
+    strat = st.tuples(ops.history(E["pool"], max_steps=steps, mult=mult(), tables=True), nm_strategy(), st.booleans())
     ctx.search("ops", strat, check_ops, n)
 
 
@@ -430,6 +548,11 @@ def task_mixture(ctx, n):
     E = env()
     strat = st.tuples(mixture(E["pool"]), nm_strategy())
     ctx.search("mixture", strat, check_mixture, n)
+
+
+def task_long(ctx, n):
+    E = env()
+    ctx.search("long", long_case(E["pool"]), check_long, n)
 
 
 def task_fixed(ctx):
@@ -454,8 +577,12 @@ def tasks(tier):
                 ("mixture-b", task_mixture, dict(n=300)),
                 ("mixture-c", task_mixture, dict(n=300)),
                 ("mixture-d", task_mixture, dict(n=300)),
+                ("long-a", task_long, dict(n=12)),
+                ("long-b", task_long, dict(n=12)),
                 ("fixed", task_fixed, dict())]
     out = [("fixed", task_fixed, dict())]
+    for k in range(3):
+        out.append(("long-%d" % k, task_long, dict(n=250)))
     for k in range(6):
         out.append(("tree-%d" % k, task_tree, dict(n=15000, depth=1 + k % 4)))
     for k in range(5):
@@ -473,6 +600,8 @@ def replay(ctx, case):
         check_ops(ctx, (case["ops"], case.get("name"), case.get("early", False)))
     elif k == "mixture":
         check_mixture(ctx, (case["mixture"], case.get("name")))
+    elif k == "long":
+        check_long(ctx, case)
     elif k == "empty":
         task_fixed(ctx)
     else:
